@@ -270,6 +270,8 @@ def run_shard(spec, ctx):
         fill_cells = []
         for pc in parents:
             fill_cells.extend(a5.cell_to_children(pc, a5.get_resolution(pc) + 6))
+        spread = [gen.random_cell(ctx.rnd, a5, ctx.rnd.randint(3, 20)) for _ in range(600)]
+        fill_cells = [x for pair in zip(spread, fill_cells) for x in pair] + fill_cells[len(spread):]   # every other early filler lands in another triangle
         fillers = [(lambda c=c: a5.cell_to_lonlat(c)) for c in fill_cells]
         rew.rewind()
         hist = {}
